@@ -1032,3 +1032,83 @@ def r_reconnect_wiring(ctx):
     else:
         ctx.violation('TCPTransport._onIncomingMessageReceived:reported-before-registered', inc.loc(), 'a node can be reported connected before its connection is registered (send() then fails although the node is "connected")', instance=inst)
     ctx.expect_min(4)
+
+
+@rule('R-disc-attribution', 'a lost connection is reported as the loss of a member only if it is the connection registered '
+                            'for that member: the node is found by comparing the registry entries with the connection object')
+def r_disc_attribution(ctx):
+    P = ctx.P
+    T = transport_parts(ctx)
+    od = T.roles['on_disc']
+    send = T.methods['send']
+    registry = (_keyed_tables(P, send, send.params[1]) or [None])[-1]
+    ctx.require(registry, 'connection registry not found')
+    conn = od.params[1] if len(od.params) > 1 else None
+    ctx.require(conn, 'the disconnect callback takes no connection parameter')
+    # functions that compute the node: the callback itself and the methods it hands the connection to
+    funcs = [(od, conn)]
+    for c in P.calls_in(od):
+        r = P.resolve_call(od, c)
+        if r.kind == 'method':
+            for i, a in enumerate(c.args):
+                if isinstance(a, ast.Name) and a.id == conn:
+                    for t in r.targets:
+                        if t.owner_cls is T and len(t.params) > i + 1:
+                            funcs.append((t, t.params[i + 1]))
+    inst = 'disconnect callback maps the connection to its member through the registry'
+    ctx.tick()
+    ok = False
+    for g, cp in funcs:
+        reads_reg = any(a.attr == registry and a.kind in ('read', 'call') for a in P.accesses(g))
+        ident = any(isinstance(n, ast.Compare) and len(n.ops) == 1 and isinstance(n.ops[0], (ast.Is, ast.Eq))
+                    and any(isinstance(x, ast.Name) and x.id == cp for x in (n.left, n.comparators[0]))
+                    and any(P.self_attr(y, g.self_name) == registry for x in (n.left, n.comparators[0]) for y in ast.walk(x)) for n in ast.walk(g.node))
+        if reads_reg and ident:
+            ok = True
+            where = g
+    if ok:
+        ctx.ok(inst, where.loc(), '%s compares self.%s[..] with the connection' % (where.qualname, registry))
+    else:
+        ctx.violation('%s:disconnect-attributed-without-registry' % od.qualname, od.loc(),
+                      'the member reported as disconnected is not found by comparing the registered connections with the connection that died: a replaced (stale) connection '
+                      'of a peer reports the peer as down although its live connection works', instance=inst)
+    ctx.expect_min(1)
+
+
+@rule('R-established-checked', 'an outgoing connection becomes CONNECTED only after the pending socket error was read and '
+                               'found clear (readiness alone does not mean the connect succeeded)')
+def r_established_checked(ctx):
+    P = ctx.P
+    C, send, parse, rbuf, wbuf = _wire.conn_parts(ctx)
+    sock, state = _wire.conn_attrs(ctx)
+    n_sites = 0
+    for m in P.methods_of(C):
+        if m.name == '__init__':
+            continue            # a connection wrapped around an accepted socket starts established
+        stores = [st for st, k in U.assigns_to_attr(P, m, state) if P.const_class_value(st.value) and P.const_class_value(st.value)[1] == 'CONNECTED']
+        if not stores:
+            continue
+        cfg = U.explorer(ctx, m).cfg
+        checks = [n for n in cfg.nodes if n.kind == 'cond' and any(isinstance(x, ast.Attribute) and x.attr == 'SO_ERROR' for x in ast.walk(n.ast))
+                  and any(isinstance(c, ast.Call) and isinstance(c.func, ast.Attribute) and c.func.attr == 'getsockopt' for c in ast.walk(n.ast))]
+        for st in stores:
+            sn = U.node_containing(cfg, st)
+            inst = '%s: `%s` only after getsockopt(SO_ERROR) returned 0' % (m.qualname, unparse(st))
+            n_sites += 1
+            ctx.tick()
+            guarded = False
+            for cn in checks:
+                tt = [d for d, l in cn.succ if l == ('cond', True)]
+                if sn.id in cfg.reachable_from(cfg.entry.id, avoid=[cn.id]):
+                    continue
+                if tt and sn.id in cfg.reachable_from(tt[0], avoid=[cn.id]):
+                    continue
+                guarded = True
+            if guarded:
+                ctx.ok(inst, m.loc(st), 'dominated by the clear edge of the SO_ERROR test')
+            else:
+                ctx.violation('%s:connected-without-error-check' % m.qualname, m.loc(st),
+                              'the connection is marked CONNECTED on a path that did not read the pending socket error: with a poller that reports a refused connect only as '
+                              'readable/writable (select) the peer is reported connected while nothing is connected', instance=inst)
+    ctx.require(n_sites >= 1, 'no CONNECTING -> CONNECTED transition found')
+    ctx.expect_min(1)
